@@ -5,6 +5,7 @@ mod c03;
 mod c04;
 mod c05;
 mod c06;
+mod c08;
 mod c10;
 mod c12;
 mod c13;
@@ -50,6 +51,7 @@ fn main() {
         let v: serde_json::Value = serde_json::from_str(&txt).expect("replay file is JSON");
         let code = match v["property"].as_str().unwrap_or("") {
             "C17" => c17::replay(&v),
+            "C08" => c08::replay(&v),
             "C02" => c02::replay(&v),
             "C15" => c15::replay(&v),
             "C14" => c14::replay(&v),
@@ -113,6 +115,7 @@ fn main() {
         "C04" => c04::run(tier),
         "C05" => c05::run(tier),
         "C06" => c06::run(tier),
+        "C08" => c08::run(tier),
         "C10" => c10::run(tier),
         "C12" => c12::run(tier),
         "C13" => c13::run(tier),
